@@ -23,22 +23,31 @@ RULE = ('random template trees (depth <= 4) over table/point/constant/function(p
         'repetition, for-loop (index dependent voltages and durations; range shapes empty / single / step not dividing '
         'the span / negative step / parametrised), mapping (simultaneous parameter substitution, channel rename/drop), '
         'atomic multi-channel, parallel-channel (constant and time dependent), scalar and pulse arithmetic; dyadic '
-        'parameter values; plus an exhaustive sweep of for-loop ranges over small start/stop/step and a small malformed '
-        'stream (missing parameter).  Observation: integral/initial_values/final_values/duration evaluated exactly '
-        '(sympy rationals), the real program of create_program integrated leaf by leaf with an open 3-point rule on a '
-        '1/16 grid (exact for piecewise cubics with breakpoints on the grid; cross-checked on a 1/8 grid), its first '
-        'and last sample, and the program of pad_to(total+pad) sampled in the padded region.  Non-trivial = contains a '
-        'for-loop or a mapping or nesting depth >= 3.')
+        'parameter values; for-loop range sweeps over small start/stop/step (thorough tier: exhaustive start -4..4, stop '
+        '-4..5, step +-{1,2,3} under 9 loop-carrying wrappers, plus fully symbolic ranges); ArithmeticPT with time '
+        'dependent scalars (Python oracle only); a small malformed stream (missing parameter).  Observation: '
+        'integral/initial_values/final_values/duration evaluated exactly (sympy rationals), the real program of '
+        'create_program integrated leaf by leaf with an open 3-point rule on a 1/16 grid (exact for piecewise cubics with '
+        'breakpoints on the grid; cross-checked on a 1/8 grid), its first and last samples, and the program of '
+        'pad_to(total+pad) sampled in the padded region.  check_corr additionally demands wf(p) for every strict case '
+        'and that the classifier\'s guard predicates equal the Coq guards.  Non-trivial = contains a for-loop or a mapping '
+        'or nesting depth >= 3.')
 TRUSTED = [
     'Coq 8.16.1 kernel + vm_compute (no native_compute)',
-    'sympy: Sum/Max/ceiling/floor/Piecewise/subs/integrate evaluate as the model nodes ESum/EMax/ECeil/EFloor/EIfLe/ELet '
-    'and the term-wise antiderivative do (oracle; validated on every generated case by check_corr)',
+    'sympy: Sum/Max/ceiling/floor/sign/Piecewise/subs/integrate evaluate as the model nodes '
+    'ESum/EMax/ECeil/EFloor/esign/EIfLe/ELet and the term-wise antiderivative do (oracle; validated on every generated '
+    'case by check_corr)',
     'harness: generators, Gallina printers, leaf walker and the open Newton-Cotes integrator over get_sampled output',
     'numpy float arithmetic is exact on the generated dyadic inputs (checked per case: samples must be dyadic, two grids agree)',
+    'the Python oracle (py_spec) for the time-dependent-scalar stream, which has no Coq model',
 ]
 ASSUMPTIONS = [
+    'the theorems are about templates satisfying Wf.wf (what the constructors of the real classes enforce); check_corr '
+    'verifies wf on every generated strict case',
+    'the theorems take "the symbolic value evaluates to a number" as a hypothesis (definedness is not proved)',
     'function atoms are polynomials in t (degree <= 3); transcendental atoms are not covered',
-    'time dependent scalar operands of ArithmeticPT and measurements/constraints are outside the model',
+    'time dependent scalar operands of ArithmeticPT are outside the Coq model (covered by a Python-oracle stream); '
+    'measurements/constraints are outside the model',
     'loop index names are distinct from parameter names and from each other (no capture in sympy.subs)',
     'the end voltage of a table/point pulse is the value of its last entry (for a trailing hold step that level is '
     'specified but not played for a positive time)',
@@ -635,23 +644,29 @@ def shrink(case, obs, ctx):
 
 
 MANIFEST = {
-    'level_text': 'Partial proof + exact correspondence. Proved in Coq (unbounded, axiom free): the closed forms '
-                  'ForLoopPT builds (ceiling count, Piecewise/Sum/Max, substituted start and final index) evaluate to '
-                  'the sum over / first / last element of the Python range for every range shape; the table '
-                  '_sequence_integral, constant and polynomial-function integrals equal the exact integral of the '
-                  'denoted pieces; integrals add over concatenation; pad_to denotes the pulse followed by a constant '
-                  'piece holding final_values.  ForLoopPT.final_values (floor division) is refuted and proved under '
-                  'the guard "step divides the span".  The assembly of these rules into one induction over all 13 '
-                  'template classes (mapping, multi-channel, parallel, arithmetic included) is NOT proved; those '
-                  'classes are covered by the correspondence check only: every generated template is evaluated on '
-                  'the real code (symbolic dictionaries exactly, the instantiated program integrated exactly leaf by '
-                  'leaf, padded program sampled) and compared inside Coq with the mirrored model and the denotation.',
-    'level_note': 'Trusted: Coq kernel, sympy evaluation of Sum/Max/ceiling/floor/Piecewise/subs/integrate (modelled '
-                  'semantically, validated per case), harness integrator and generators. Five known deviations of '
-                  'the unchanged code are listed as known findings (for-final-floor, initial-head-empty-or-jump, '
-                  'final-tail-empty, table-constant-detection, arith-over-parallel-order); three defects were '
+    'level_text': 'Full proof (modulo stated hypotheses) + exact correspondence. Proved in Coq (unbounded, axiom free, '
+                  'one induction over all 13 template classes each): C07_duration (symbolic duration == total length of '
+                  'the denoted pulse), C07_integral (symbolic integral == exact integral of the denoted pulse: every '
+                  'tree, environment, channel, range shape; no guard), C07_initial_guarded and C07_final_guarded '
+                  '(initial/final value == voltage at time 0 / specified end voltage) under one executable guard per '
+                  'remaining end-point finding (initial-head-empty-or-jump, final-tail-empty), each with a refutation '
+                  'witness and a non-vacuity example; pad_to denotes the pulse followed by a constant piece holding '
+                  'final_values.  Hypotheses: Wf.wf p (what the real constructors enforce; checked on every generated '
+                  'case), the template is instantiable (denote = Some), and the symbolic value evaluates to a number '
+                  '(definedness is not proved).  ForLoopPT.final_values was repaired in /repo (1b7d0bd): the loop guard '
+                  'of round 1 is gone, C07_final_index_correct proves the new index for every range, '
+                  'C07_floor_guard_exact characterises exactly what the old form got wrong.  Every generated template '
+                  'is evaluated on the real code (symbolic dictionaries exactly, the instantiated program integrated '
+                  'exactly leaf by leaf, padded program sampled) and compared inside Coq with the mirrored model and '
+                  'the denotation; the classifier of known findings is cross-checked against the proven guards.',
+    'level_note': 'Trusted: Coq kernel, sympy evaluation of Sum/Max/ceiling/floor/sign/Piecewise/subs/integrate '
+                  '(modelled semantically, validated per case), harness integrator and generators, the Python oracle of '
+                  'the time-dependent-scalar stream (not modelled in Coq). Five known deviations of the unchanged code '
+                  'are listed as known findings (initial-head-empty-or-jump, final-tail-empty, '
+                  'table-constant-detection, arith-over-parallel-order, negative-duration-empty); five defects were '
                   'repaired in /repo (empty-range integral, bare sympy integral of ArithmeticPT, time dependent '
-                  'ParallelChannelPT).',
+                  'ParallelChannelPT, ForLoopPT.final_values floor index, time dependent scalar in '
+                  'ArithmeticPT.initial_values/final_values).',
     'technique': 'Coq proof over a hand-written model + exact correspondence check against the real instantiated pulse',
     'design_ref': 'DESIGN.md §5 C07',
 }
